@@ -21,6 +21,7 @@ TRUSTED = [
     "tie/impl/c17_subcmd.py (builds the real parsers, renders argv / JSON / environment variables, strips the 'cfg' keys) and the Gallina printer",
     "hand-written model coq/Model/C17Subcmd.v, tied by per-case agreement evaluated inside Coq",
     "argparse's tokenisation of argv into options, the subcommand token and the remainder",
+    "translate(): recognition of the pinned / repaired shape of the two `if` tests of get_subcommands that selects the model variant (a wrong recognition surfaces as model disagreements)",
 ]
 ASSUMPTIONS = [
     "options are --k type=int with int defaults; config values are nested objects with int/str leaves (no explicit null, no lists)",
